@@ -50,8 +50,12 @@ def main():
         touched = sorted({l[6:].split("/")[0] + "/" + l[6:].split("/")[1] for l in open(patch) if l.startswith("+++ b/modules/")})
         if mods is None:
             mods = touched
-        demo_mod = "/".join(dest.split("/")[:2])
-        demo_pkg = "./" + "/".join(dest.split("/")[2:-1]) + "/"
+        if dest.startswith("e2e/") or dest.startswith("simapp/"):
+            demo_mod = dest.split("/")[0]
+            demo_pkg = "./" + "/".join(dest.split("/")[1:-1]) + "/"
+        else:
+            demo_mod = "/".join(dest.split("/")[:2])
+            demo_pkg = "./" + "/".join(dest.split("/")[2:-1]) + "/"
         shutil.copyfile(demo, os.path.join(wt, dest))
         cmd = "go test %s -run '%s' -count=1" % (demo_pkg, regex)
         rc, out = sh(cmd, os.path.join(wt, demo_mod))
@@ -93,10 +97,11 @@ def main():
         sys.exit(1)
     dst = os.path.join("/verif/seeded", name)
     os.makedirs(dst, exist_ok=True)
-    shutil.copyfile(patch, os.path.join(dst, "patch.diff"))
-    shutil.copyfile(demo, os.path.join(dst, "demo_test.go"))
-    if os.path.exists(os.path.join(src, "README.md")):
-        shutil.copyfile(os.path.join(src, "README.md"), os.path.join(dst, "README.md"))
+    if os.path.abspath(src) != os.path.abspath(dst):
+        shutil.copyfile(patch, os.path.join(dst, "patch.diff"))
+        shutil.copyfile(demo, os.path.join(dst, "demo_test.go"))
+        if os.path.exists(os.path.join(src, "README.md")):
+            shutil.copyfile(os.path.join(src, "README.md"), os.path.join(dst, "README.md"))
     meta["demo"] = {"file": "demo_test.go", "copy_to": dest, "run": "cd %s && go test %s -run '%s' -count=1" % (demo_mod, demo_pkg, regex)}
     json.dump(meta, open(os.path.join(dst, "meta.json"), "w"), indent=1)
     print("KEPT", name, "detected=%s" % meta.get("detected"))
